@@ -323,6 +323,11 @@ class StructureMetaType(MetaType):
                 # Field is at a specific offset, either alligned or added that way
                 stream.write(b"\x00" * (struct_start + field.offset - offset))
                 offset = struct_start + field.offset
+            elif field.offset is not None and offset > struct_start + field.offset and bit_buffer._type is None:
+                # The previous field wrote past this field's offset (e.g. the tail padding of an aligned structure that does
+                # not start at a multiple of its alignment), go back like the reader does
+                offset = struct_start + field.offset
+                stream.seek(offset)
 
             if cls.__align__ and field.offset is None:
                 is_bitbuffer_boundary = bit_buffer._type and (
